@@ -167,6 +167,17 @@ RouteFails(C, j, J, O) ==
      \cup Fail(\A r \in RangeA(J.routes) \cap AlphaRoutes : \A a \in RangeA(J.alphas) :
                  \E k \in 1..Len(O.twice) : O.twice[k].r = r /\ O.twice[k].a = a, "MACHINERY:TwiceNotExecuted", j, "")
 
+\* matrix-free routes: O.vr = sequence of [r, mv, ow, acc, probes]  (mv: r(x) = A x; ow / acc: a call with alpha into the filled
+\* vector gave alpha * A x / y + alpha * A x; probes: per probe field of the job the scaled integers of its identities)
+VRouteFails(C, j, J, O) ==
+  UNION {LET r == J.vroutes[q]   hit == {k \in 1..Len(O.vr) : O.vr[k].r = r} IN
+         IF r \notin MatrixFreeRoutes THEN Fail(FALSE, "MACHINERY:JobNotInCatalogue", j, r)
+         ELSE IF hit = {} THEN Fail(FALSE, "MACHINERY:RouteNotExecuted", j, r)
+         ELSE LET o == O.vr[CHOOSE k \in hit : TRUE] IN
+              Fail(o.mv, "ApplyEqualsMatVec", j, r)
+              \cup (IF RepeatSemantics(r) = "overwrite" THEN Fail(o.ow, "RepeatOverwrites", j, r) ELSE Fail(o.acc, "AssembleTwice", j, r))
+         : q \in 1..Len(J.vroutes)}
+
 IdFails(C, j, mom, poly, deg, id, o) ==
   IF o.S # SpecScale(id.mode, C.G, deg, C.dim) THEN Fail(FALSE, "MACHINERY:Scale", j, Str(id))
   ELSE IF ~o.dec THEN {}      \* the rounding bound did not allow to decide the integer: counted by the check, never a verdict
@@ -183,6 +194,7 @@ MatJobFails(C, j, mom, J, O) ==
             /\ RangeA(J.ids) \subseteq MatIds(op, C.shape, C.dim, C.class, C.test, C.trial),
             "MACHINERY:JobNotInCatalogue", j, ""),
        RouteFails(C, j, J, O),
+       Fail(RangeA(J.vroutes) \subseteq MatVRoutes(op, C.test, C.trial), "MACHINERY:JobNotInCatalogue", j, "vroutes") \cup VRouteFails(C, j, J, O),
        \* the matrix-free route overwrites its output vector: alpha * A x whatever the vector contained
        IF "apply" \in RangeA(J.routes) THEN Fail(RepeatSemantics("apply") = "overwrite" /\ O.applyrep.within, "RepeatOverwrites", j, "apply") ELSE {},
        IF same /\ IsSymmetric(op) THEN Fail(O.sym.within, "Symmetric", j, "") ELSE {},
@@ -221,22 +233,58 @@ VecJobFails(C, j, mom, J, O) ==
        ELSE UNION {IdFails(C, j, mom, FuncForm(fn, C.dim, J.ids[k].u), FuncDeg(fn) + TotDeg(J.ids[k].u), J.ids[k], O.ids[k]) : k \in 1..Len(J.ids)} }
 
 \* blocked = scalar (x) structure on every route
-BlkJobFails(C, j, J, O) ==
+BlkJobFails(C, j, mom, J, O) ==
   UNION {
     Fail(/\ J.bop \in BOpsOf(C.dim) /\ C.test = C.trial /\ BOpSensible(J.bop, C.shape, C.dim, C.class, C.test)
          /\ J.deg >= BReqDeg(J.bop, C.shape, C.dim, C.class, C.test)
          /\ RangeA(J.routes) \subseteq BRoutes(J.bop, C.shape, C.test) /\ J.ref = BRef(J.bop)
-         /\ J.blocks = BlocksOf(J.bop, C.dim),
+         /\ J.blocks = BlocksOf(J.bop, C.dim)
+         /\ RangeA(J.vroutes) \subseteq BVRoutes(J.bop, C.shape, C.test)
+         /\ \A q \in 1..Len(J.probes) : /\ J.probes[q].field \in BProbeFields(J.bop, C.shape, C.dim, C.class, C.test)
+                                        /\ RangeA(J.probes[q].ids) \subseteq BProbeIds(J.bop, J.probes[q].field, C.shape, C.dim, C.class, C.test),
          "MACHINERY:JobNotInCatalogue", j, ""),
     RouteFails(C, j, J, O),
+    VRouteFails(C, j, J, O),
+    \* ApplyBilinear: the exact value of (v e_row)^T r(P) for every probe field P, on every matrix-free route that takes a
+    \* free argument (burgersjobself is applied to the convection field itself)
+    UNION {LET r == J.vroutes[q]   hit == {k \in 1..Len(O.vr) : O.vr[k].r = r} IN
+           IF hit = {} \/ r = "burgersjobself" THEN {}
+           ELSE LET o == O.vr[CHOOSE k \in hit : TRUE] IN
+                IF Len(o.probes) # Len(J.probes) THEN Fail(FALSE, "MACHINERY:ProbeCount", j, r)
+                ELSE UNION {IF Len(o.probes[f]) # Len(J.probes[f].ids) THEN Fail(FALSE, "MACHINERY:IdCount", j, r)
+                            ELSE UNION {LET id == J.probes[f].ids[k]   ob == o.probes[f][k]
+                                            poly == NonZero(ProbeForm(J.bop, C.dim, J.probes[f].field, id.row, id.v))
+                                        IN IF ob.S # SpecScale(id.mode, C.G, id.fd, C.dim) THEN Fail(FALSE, "MACHINERY:Scale", j, Str(id))
+                                           ELSE IF ~ob.dec THEN {}
+                                           ELSE Fail(~ob.nonint /\ ob.num = ExpNum(C, mom, id.mode, poly), "ApplyBilinear", j,
+                                                     Str([r |-> r, field |-> J.probes[f].field, id |-> id, exp |-> ExpNum(C, mom, id.mode, poly), got |-> ob.num]))
+                                        : k \in 1..Len(J.probes[f].ids)}
+                            : f \in 1..Len(J.probes)}
+           : q \in 1..Len(J.vroutes)},
     UNION {LET hit == {k \in 1..Len(O.blk) : O.blk[k].r = J.routes[q]} IN
            IF hit = {} THEN Fail(FALSE, "MACHINERY:RouteNotExecuted", j, J.routes[q])
            ELSE Fail(\A k \in hit : O.blk[k].within, "BlockedIsScalar", j, J.routes[q]) : q \in 1..Len(J.routes)} }
 
 \* gradient / divergence special assemblers: blocks are the scalar testderiv matrices, D is the adjoint of B
-GdJobFails(C, j, J, O) ==
+GdJobFails(C, j, mom, J, O) ==
   UNION {
-    Fail(J \in GDJobs(C.shape, C.dim, C.class, C.test, C.trial) \/ \E sl \in 1..3 : J = GDJob(C.shape, C.dim, C.class, C.test, C.trial, sl),
+    VRouteFails(C, j, J, O),
+    UNION {LET hit == {k \in 1..Len(O.vr) : O.vr[k].r = J.vroutes[q]} IN
+           IF hit = {} THEN {}
+           ELSE LET o == O.vr[CHOOSE k \in hit : TRUE] IN
+                IF Len(o.ids) # Len(J.vids) THEN Fail(FALSE, "MACHINERY:IdCount", j, J.vroutes[q])
+                ELSE UNION {LET id == J.vids[k]   ob == o.ids[k]
+                                poly == Form(Op("trialderiv", <<id.row - 1>>), C.dim, id.u, id.v)
+                            IN IF ob.S # SpecScale(id.mode, C.G, id.fd, C.dim) THEN Fail(FALSE, "MACHINERY:Scale", j, Str(id))
+                               ELSE IF ~ob.dec THEN {}
+                               ELSE Fail(~ob.nonint /\ ob.num = ExpNum(C, mom, id.mode, poly), "ApplyBilinear", j,
+                                         Str([r |-> J.vroutes[q], id |-> id, exp |-> ExpNum(C, mom, id.mode, poly), got |-> ob.num]))
+                            : k \in 1..Len(J.vids)}
+           : q \in 1..Len(J.vroutes)},
+    \* (the identity list is compared as a set: the order of a sequence made from a set is not part of the catalogue)
+    Fail(/\ <<C.test, C.trial>> \in GDPairs
+         /\ \E sl \in 0..3 : [J EXCEPT !.vids = << >>] = [GDJob(C.shape, C.dim, C.class, C.test, C.trial, sl) EXCEPT !.vids = << >>]
+         /\ RangeA(J.vids) \subseteq GDVecIds(C.shape, C.dim, C.class, C.test, C.trial),
          "MACHINERY:JobNotInCatalogue", j, ""),
     Fail(Len(O.sc) = Len(J.scales), "MACHINERY:ScalesNotExecuted", j, ""),
     UNION {Fail(O.sc[k].b, "GradPresIsTestDeriv", j, "gpdv") \cup Fail(O.sc[k].adj, "GradDivAdjoint", j, "gpdv")
@@ -331,13 +379,20 @@ Verdict(C) ==
     IN law \cup PatternFails(C)
        \cup UNION {CASE C.jobs[j].spec.k = "mat" -> MatJobFails(C, j, mom, C.jobs[j].spec, C.jobs[j].obs)
                      [] C.jobs[j].spec.k = "vec" -> VecJobFails(C, j, mom, C.jobs[j].spec, C.jobs[j].obs)
-                     [] C.jobs[j].spec.k = "blk" -> BlkJobFails(C, j, C.jobs[j].spec, C.jobs[j].obs)
-                     [] C.jobs[j].spec.k = "gd" -> GdJobFails(C, j, C.jobs[j].spec, C.jobs[j].obs)
+                     [] C.jobs[j].spec.k = "blk" -> BlkJobFails(C, j, mom, C.jobs[j].spec, C.jobs[j].obs)
+                     [] C.jobs[j].spec.k = "gd" -> GdJobFails(C, j, mom, C.jobs[j].spec, C.jobs[j].obs)
                      [] C.jobs[j].spec.k = "bpar" -> BParJobFails(C, j, C.jobs[j].spec, C.jobs[j].obs) : j \in 1..Len(C.jobs)}
 
-NIds(C) == SumA([j \in 1..Len(C.jobs) |-> IF C.jobs[j].spec.k \in {"blk", "gd", "bpar"} THEN 0 ELSE Len(C.jobs[j].obs.ids)])
-NUndec(C) == SumA([j \in 1..Len(C.jobs) |-> IF C.jobs[j].spec.k \in {"blk", "gd", "bpar"} THEN 0
-                    ELSE Cardinality({k \in 1..Len(C.jobs[j].obs.ids) : ~C.jobs[j].obs.ids[k].dec})])
+\* identity values judged / not decidable within the rounding bound: Bilinear and functional values of the scalar jobs, ApplyBilinear
+\* values of the matrix-free routes of the blocked and gradient jobs
+ObsIdLists(jb) ==
+  CASE jb.spec.k \in {"mat", "vec"} -> <<jb.obs.ids>>
+    [] jb.spec.k = "blk" -> FlatA([q \in 1..Len(jb.obs.vr) |-> jb.obs.vr[q].probes])
+    [] jb.spec.k = "gd" -> [q \in 1..Len(jb.obs.vr) |-> jb.obs.vr[q].ids]
+    [] OTHER -> << >>
+NIds(C) == SumA([j \in 1..Len(C.jobs) |-> LET L == ObsIdLists(C.jobs[j]) IN SumA([q \in 1..Len(L) |-> Len(L[q])])])
+NUndec(C) == SumA([j \in 1..Len(C.jobs) |-> LET L == ObsIdLists(C.jobs[j]) IN
+                    SumA([q \in 1..Len(L) |-> Cardinality({k \in 1..Len(L[q]) : ~L[q][k].dec})])])
 
 CEmit == LET C == Cases[ci] IN
   IF IsTwoLevel(C) THEN PrintT(ToJson([id |-> C.id, fails |-> SetToSeqA(TwoLevelVerdict(C)), nids |-> 0, nundec |-> 0])) ELSE
